@@ -3,12 +3,15 @@ import Rawr.Abs
 import Rawr.Generated.StartPos
 import Rawr.Proofs.FlipLemmas
 import Rawr.Proofs.EvalLemmas
+import Rawr.Proofs.EvalBound
+import Rawr.Proofs.EvalDomain
+import Rawr.Proofs.EvalMirror
 /-!
 # C17 — static evaluation: antisymmetric, colour-blind, independent of non-board state
 
 Rust: `src/search/eval.rs` (`eval`, `eval_us`, `get_phase`, `taper`), `src/search/score.rs`,
-`src/chess/flip.rs`. (a)–(c) hold for an arbitrary table `T : EvalTables`. The bound (d) for the
-extracted tables is in `Rawr/Props/C17Bound.lean`.
+`src/chess/flip.rs`. (a)–(c) hold for an arbitrary table `T : EvalTables`; the bound (d) is for the
+extracted tables `genEvalTables` (helper lemmas in `Rawr/Proofs/EvalBound.lean`).
 -/
 namespace Rawr
 
@@ -116,6 +119,222 @@ theorem abs_mirrorSwap (p : Position) : abs (mirrorSwap p) = Spec.mirrorA (abs p
       · exact congrArg some (flipSq_flipSq s).symm
   cases h : p.black <;> simp [mirrorSwap, h] at he ⊢ <;> exact he
 
+/-- (c) stated through the abstraction only: two engine positions with consistent boards whose
+absolute positions are colour-swapped mirror images of each other (board and side to move)
+evaluate equally, each from its mover's point of view — for every table. -/
+theorem C17_mirror_abs (T : EvalTables) (p q : Position) (hp : Consistent p = true)
+    (hq : Consistent q = true) (hb : (abs q).board = Spec.mirrorBoard (abs p).board)
+    (ht : (abs q).whiteToMove = !(abs p).whiteToMove) : evalT T q = evalT T p := by
+  have hbl : q.black = (mirrorSwap p).black := by
+    have : (!q.black) = !(!p.black) := ht
+    simp only [mirrorSwap]
+    revert this
+    cases q.black <;> cases p.black <;> decide
+  have hab : absBoard q = absBoard (mirrorSwap p) := by
+    rw [absBoard_mirrorSwap]; exact hb
+  have hc : Consistent (mirrorSwap p) = true := hp
+  rw [evalT_congr T (sameBoards_of_absBoard_eq hq hc hbl hab)]
+  exact C17_mirror T p
+
+/-! ## (d) the value lies strictly inside the mate range and nothing overflows `i32`
+
+Hypotheses (all consequences of `Consistent p`, i.e. V.1):
+* `PieceDisj p` : the six piece boards are pairwise disjoint — so that the per-kind counts of a side
+  add up to at most its number of men;
+* `OnMen p` : knights, bishops, rooks and queens stand on occupied squares — `get_phase` counts the
+  piece boards, not their intersection with the colour boards;
+* either `M16 p` (each side has at most 16 men; sharper constants), or `c0 &&& c1 = 0` (then there
+  are at most 64 men, which is still enough).
+No other field is read. The proof bounds, per man of a side, `|mg|, |eg| ≤ 1208`
+(`900 + 173 + 90 + 20 + 25`) and `|eg − mg| ≤ 157` (`137 + 20`) from the extracted tables, and uses
+`256·tapered ≈ 256·mg + phase·(eg − mg)`. -/
+
+/-- At most 16 men a side. -/
+def M16 (p : Position) : Prop := count p.c0 ≤ 16 ∧ count p.c1 ≤ 16
+
+/-- Every `i32` quantity computed by `eval` (both `eval_us` results, their difference, the phase,
+`256 - phase`, the two products and the numerator of `taper`, the result and its negation) is an
+`i32` value. (The partial sums inside `eval_us` are sums of sub-collections of the same terms and
+obey the same bound by the same argument, `foldl_add_bnd`.) -/
+def EvalNoOverflow (p : Position) : Prop :=
+  let a := evalUsT genEvalTables p
+  let b := evalUsT genEvalTables p.flip
+  let d := a.sub b
+  I32 a.1 ∧ I32 a.2 ∧ I32 b.1 ∧ I32 b.2 ∧ I32 d.1 ∧ I32 d.2 ∧ I32 (phase p) ∧
+  I32 (256 - phase p) ∧ I32 (d.1 * (256 - phase p)) ∧ I32 (d.2 * phase p) ∧
+  I32 (d.1 * (256 - phase p) + d.2 * phase p) ∧ I32 (eval p) ∧ I32 (- eval p)
+
+/-- Generic form: `n` bounds the number of men, `L` the negative excursion of the phase. -/
+theorem C17_bounds_gen (p : Position) (hd : PieceDisj p) (n L : Nat)
+    (hn : count p.c0 + count p.c1 ≤ n) (hp : -(L : Int) ≤ phase p ∧ phase p ≤ 256)
+    (hL : 256 ≤ L) :
+    (evalUsT genEvalTables p).Bnd ((n * 1208 : Nat) : Int) ((n * 157 : Nat) : Int) ∧
+    (evalUsT genEvalTables p.flip).Bnd ((n * 1208 : Nat) : Int) ((n * 157 : Nat) : Int) ∧
+    (let d := (evalUsT genEvalTables p).sub (evalUsT genEvalTables p.flip)
+     d.Bnd ((n * 1208 : Nat) : Int) ((n * 157 : Nat) : Int) ∧
+     (-((n * 1208 * (256 + L) : Nat) : Int) ≤ d.1 * (256 - phase p) ∧
+       d.1 * (256 - phase p) ≤ ((n * 1208 * (256 + L) : Nat) : Int)) ∧
+     (-((n * 1208 * L : Nat) : Int) ≤ d.2 * phase p ∧
+       d.2 * phase p ≤ ((n * 1208 * L : Nat) : Int)) ∧
+     (-((n * 1208 * 256 + n * 157 * L : Nat) : Int) ≤ d.1 * (256 - phase p) + d.2 * phase p ∧
+       d.1 * (256 - phase p) + d.2 * phase p ≤ ((n * 1208 * 256 + n * 157 * L : Nat) : Int))) ∧
+    (-(((n * 1208 * 256 + n * 157 * L) / 256 : Nat) : Int) ≤ eval p ∧
+      eval p ≤ (((n * 1208 * 256 + n * 157 * L) / 256 : Nat) : Int)) := by
+  have a := evalUsT_bnd hd
+  have b := evalUsT_bnd hd.flip
+  rw [Position.flip_c0, count_flipBB] at b
+  have hmul1 : (count p.c0 + count p.c1) * 1208 ≤ n * 1208 := Nat.mul_le_mul_right _ hn
+  have hmul2 : (count p.c0 + count p.c1) * 157 ≤ n * 157 := Nat.mul_le_mul_right _ hn
+  have d : ((evalUsT genEvalTables p).sub (evalUsT genEvalTables p.flip)).Bnd
+      ((n * 1208 : Nat) : Int) ((n * 157 : Nat) : Int) := (a.sub b).mono (by omega) (by omega)
+  obtain ⟨t1, t2, t3, t4⟩ := taper_bnd d hp hL
+  exact ⟨a.mono (by omega) (by omega), b.mono (by omega) (by omega), ⟨d, t1, t2, t3⟩, t4⟩
+
+/-- With at most 16 men a side: both `eval_us` results within `±19328`, their difference within
+`±38656` (`eg − mg` within `±5024`), phase in `[-1108, 256]`, the products within `±52 726 784` and
+`±42 830 848`, the numerator within `±15 462 528`, the result within `±60 400`. -/
+theorem C17_bounds_all (p : Position) (hd : PieceDisj p) (ho : OnMen p) (hm : M16 p) :
+    (evalUsT genEvalTables p).Bnd 19328 2512 ∧ (evalUsT genEvalTables p.flip).Bnd 19328 2512 ∧
+    ((evalUsT genEvalTables p).sub (evalUsT genEvalTables p.flip)).Bnd 38656 5024 ∧
+    (-1108 ≤ phase p ∧ phase p ≤ 256) ∧
+    (let d := (evalUsT genEvalTables p).sub (evalUsT genEvalTables p.flip)
+     (-52726784 ≤ d.1 * (256 - phase p) ∧ d.1 * (256 - phase p) ≤ 52726784) ∧
+     (-42830848 ≤ d.2 * phase p ∧ d.2 * phase p ≤ 42830848) ∧
+     (-15462528 ≤ d.1 * (256 - phase p) + d.2 * phase p ∧
+       d.1 * (256 - phase p) + d.2 * phase p ≤ 15462528)) ∧
+    (-60400 ≤ eval p ∧ eval p ≤ 60400) := by
+  obtain ⟨m0, m1⟩ := hm
+  have a := evalUsT_bnd hd
+  have b := evalUsT_bnd hd.flip
+  rw [Position.flip_c0, count_flipBB] at b
+  have hp := phase_bnd (p := p) (by have := sum_count_officers_le hd ho; omega)
+  obtain ⟨_, _, ⟨d, t1, t2, t3⟩, t4⟩ := C17_bounds_gen p hd 32 1108 (by omega) hp (by decide)
+  exact ⟨a.mono (by omega) (by omega), b.mono (by omega) (by omega), d, hp, ⟨t1, t2, t3⟩, t4⟩
+
+/-- (d) The Rust `debug_assert!` in `eval`:
+`-MATE_SCORE + MAX_DEPTH < tapered && tapered < MATE_SCORE - MAX_DEPTH`. -/
+theorem C17_bound (p : Position) (hd : PieceDisj p) (ho : OnMen p) (hm : M16 p) :
+    -(Gen.MATE_SCORE - Gen.MAX_DEPTH) < eval p ∧ eval p < Gen.MATE_SCORE - Gen.MAX_DEPTH := by
+  have h := (C17_bounds_all p hd ho hm).2.2.2.2.2
+  have e : Gen.MATE_SCORE - Gen.MAX_DEPTH = 999872 := by decide
+  rw [e]
+  omega
+
+/-- No `i32` overflow in `eval` with at most 16 men a side. -/
+theorem C17_no_overflow (p : Position) (hd : PieceDisj p) (ho : OnMen p) (hm : M16 p) :
+    EvalNoOverflow p := by
+  obtain ⟨a, b, d, hp, ⟨t1, t2, t3⟩, t4⟩ := C17_bounds_all p hd ho hm
+  unfold Score.Bnd at a b d
+  unfold EvalNoOverflow I32
+  simp only
+  generalize ((evalUsT genEvalTables p).sub (evalUsT genEvalTables p.flip)).1 * (256 - phase p) = X at *
+  generalize ((evalUsT genEvalTables p).sub (evalUsT genEvalTables p.flip)).2 * phase p = Y at *
+  omega
+
+/-- The raw phase `24 - N - B - 2R - 4Q` and `raw * 256 + 12` of `get_phase` are `i32` values
+(at most 64 officers suffices). -/
+theorem C17_phase_no_overflow (p : Position) (hd : PieceDisj p) (ho : OnMen p) :
+    let raw : Int := 24 - (count p.p1 : Int) - (count p.p2 : Int) - (count p.p3 : Int) * 2 -
+      (count p.p4 : Int) * 4;
+    (-232 : Int) ≤ raw ∧ raw ≤ 24 ∧ I32 (raw * 256 + 12) := by
+  have := sum_count_officers_le_occ hd ho
+  have := count_le_64 (p.c0 ||| p.c1)
+  unfold I32
+  simp only
+  omega
+
+/-! ### from board consistency (V.1) alone: at most 64 men -/
+
+/-- With disjoint colour boards (at most 64 men): both `eval_us` results and their difference within
+`±77312` (`eg − mg` within `±10048`), phase in `[-2474, 256]`, products within `±211 061 760` and
+`±191 269 888`, numerator within `±44 650 624`, result within `±174 416`. -/
+theorem C17_bounds_all_V1 (p : Position) (hd : PieceDisj p) (ho : OnMen p)
+    (h01 : p.c0 &&& p.c1 = 0#64) :
+    (evalUsT genEvalTables p).Bnd 77312 10048 ∧ (evalUsT genEvalTables p.flip).Bnd 77312 10048 ∧
+    ((evalUsT genEvalTables p).sub (evalUsT genEvalTables p.flip)).Bnd 77312 10048 ∧
+    (-2474 ≤ phase p ∧ phase p ≤ 256) ∧
+    (let d := (evalUsT genEvalTables p).sub (evalUsT genEvalTables p.flip)
+     (-211061760 ≤ d.1 * (256 - phase p) ∧ d.1 * (256 - phase p) ≤ 211061760) ∧
+     (-191269888 ≤ d.2 * phase p ∧ d.2 * phase p ≤ 191269888) ∧
+     (-44650624 ≤ d.1 * (256 - phase p) + d.2 * phase p ∧
+       d.1 * (256 - phase p) + d.2 * phase p ≤ 44650624)) ∧
+    (-174416 ≤ eval p ∧ eval p ≤ 174416) := by
+  have hp := phase_bnd64 (p := p) (by
+    have := sum_count_officers_le_occ hd ho
+    have := count_le_64 (p.c0 ||| p.c1)
+    omega)
+  obtain ⟨a, b, ⟨d, t1, t2, t3⟩, t4⟩ :=
+    C17_bounds_gen p hd 64 2474 (count_add_le_64 h01) hp (by decide)
+  exact ⟨a, b, d, hp, ⟨t1, t2, t3⟩, t4⟩
+
+/-- (d) for every position with consistent boards — no material hypothesis. -/
+theorem C17_bound_V1 (p : Position) (hd : PieceDisj p) (ho : OnMen p)
+    (h01 : p.c0 &&& p.c1 = 0#64) :
+    -(Gen.MATE_SCORE - Gen.MAX_DEPTH) < eval p ∧ eval p < Gen.MATE_SCORE - Gen.MAX_DEPTH := by
+  have h := (C17_bounds_all_V1 p hd ho h01).2.2.2.2.2
+  have e : Gen.MATE_SCORE - Gen.MAX_DEPTH = 999872 := by decide
+  rw [e]
+  omega
+
+/-- No `i32` overflow in `eval` for every position with consistent boards. -/
+theorem C17_no_overflow_V1 (p : Position) (hd : PieceDisj p) (ho : OnMen p)
+    (h01 : p.c0 &&& p.c1 = 0#64) : EvalNoOverflow p := by
+  obtain ⟨a, b, d, hp, ⟨t1, t2, t3⟩, t4⟩ := C17_bounds_all_V1 p hd ho h01
+  unfold Score.Bnd at a b d
+  unfold EvalNoOverflow I32
+  simp only
+  generalize ((evalUsT genEvalTables p).sub (evalUsT genEvalTables p.flip)).1 * (256 - phase p) = X at *
+  generalize ((evalUsT genEvalTables p).sub (evalUsT genEvalTables p.flip)).2 * phase p = Y at *
+  omega
+
+theorem bool_onMen : ∀ a0 a1 a2 a3 a4 a5 : Bool,
+    ((a1 || a2 || a3 || a4) && !(a0 || a1 || a2 || a3 || a4 || a5)) = false := by decide
+
+theorem PieceDisj_of_Consistent {p : Position} (h : Consistent p = true) : PieceDisj p := by
+  unfold Consistent at h
+  simp only [Bool.and_eq_true, beq_iff_eq] at h
+  obtain ⟨⟨⟨⟨⟨⟨⟨⟨⟨⟨⟨⟨⟨⟨⟨⟨_, h1⟩, h2⟩, h3⟩, h4⟩, h5⟩, h6⟩, h7⟩, h8⟩, h9⟩, h10⟩, h11⟩, h12⟩, h13⟩,
+    h14⟩, h15⟩, _⟩ := h
+  exact ⟨h1, h2, h3, h4, h5, h6, h7, h8, h9, h10, h11, h12, h13, h14, h15⟩
+
+theorem OnMen_of_Consistent {p : Position} (h : Consistent p = true) : OnMen p := by
+  unfold Consistent at h
+  simp only [Bool.and_eq_true, beq_iff_eq] at h
+  unfold OnMen
+  rw [h.2]
+  apply BitVec.eq_of_getLsbD_eq
+  intro i hi
+  simp only [BitVec.getLsbD_and, BitVec.getLsbD_or, BitVec.getLsbD_not, BitVec.getLsbD_zero, hi,
+    decide_true, Bool.true_and]
+  exact bool_onMen _ _ _ _ _ _
+
+theorem colours_disjoint_of_Consistent {p : Position} (h : Consistent p = true) :
+    p.c0 &&& p.c1 = 0#64 := by
+  unfold Consistent at h
+  simp only [Bool.and_eq_true, beq_iff_eq] at h
+  exact h.1.1.1.1.1.1.1.1.1.1.1.1.1.1.1.1
+
+/-- (d), full strength: for EVERY position with consistent boards (V.1 of DESIGN.md §4) the
+evaluation lies strictly inside the range reserved for mate scores. -/
+theorem C17_bound_consistent (p : Position) (hc : Consistent p = true) :
+    -(Gen.MATE_SCORE - Gen.MAX_DEPTH) < eval p ∧ eval p < Gen.MATE_SCORE - Gen.MAX_DEPTH :=
+  C17_bound_V1 p (PieceDisj_of_Consistent hc) (OnMen_of_Consistent hc)
+    (colours_disjoint_of_Consistent hc)
+
+/-- ... and no `i32` operation of `eval` overflows. -/
+theorem C17_no_overflow_consistent (p : Position) (hc : Consistent p = true) : EvalNoOverflow p :=
+  C17_no_overflow_V1 p (PieceDisj_of_Consistent hc) (OnMen_of_Consistent hc)
+    (colours_disjoint_of_Consistent hc)
+
+/-- On the domain `D = V ∧ E ∧ M` of DESIGN.md §4 the sharper constants of `C17_bounds_all` hold:
+`|eval p| ≤ 60400`. -/
+theorem C17_bound_InD (p : Position) (h : InD p = true) : -60400 ≤ eval p ∧ eval p ≤ 60400 := by
+  unfold InD ValidPos at h
+  simp only [Bool.and_eq_true] at h
+  have hc : Consistent p = true := h.1.1.1.1.1.1.1.1.1.1
+  exact (C17_bounds_all p (PieceDisj_of_Consistent hc) (OnMen_of_Consistent hc)
+    (count_le_16_of_LegalMaterial hc h.2)).2.2.2.2.2
+
 /-! ## Non-vacuity: concrete evaluations (kernel-evaluated) -/
 
 /-- The start position without Black's a-pawn (mover = White). -/
@@ -125,12 +344,30 @@ def c17PawnUp : Position :=
 example : eval Gen.startpos = 0 := by decide +kernel
 example : eval c17PawnUp = 99 ∧ eval c17PawnUp.flip = -99 := by decide +kernel
 example : eval (mirrorSwap c17PawnUp) = 99 := by decide +kernel
+example : Consistent c17PawnUp = true ∧ Consistent (mirrorSwap c17PawnUp) = true ∧
+    (abs (mirrorSwap c17PawnUp)).whiteToMove = !(abs c17PawnUp).whiteToMove := by decide +kernel
 example : eval { c17PawnUp with
                  halfmoves := 7, fullmoves := 31, ep := some 40, usK := false, themQ := false,
                  cf0 := 5, hash := 1#64, frc := true, black := true } = 99 := by decide +kernel
 example : (abs (mirrorSwap c17PawnUp)).board 8 = none ∧
     (abs (mirrorSwap c17PawnUp)).board 9 = some ⟨true, .pawn⟩ ∧
     (abs c17PawnUp).board 49 = some ⟨false, .pawn⟩ := by decide +kernel
+
+/-- the hypotheses of (d) hold at the start position and at `c17PawnUp`. -/
+example : PieceDisj Gen.startpos ∧ OnMen Gen.startpos ∧ M16 Gen.startpos ∧
+    Consistent Gen.startpos = true := by
+  unfold PieceDisj OnMen M16; decide +kernel
+example : InD Gen.startpos = true := by decide +kernel
+example : PieceDisj c17PawnUp ∧ OnMen c17PawnUp ∧ M16 c17PawnUp ∧ Consistent c17PawnUp = true := by
+  unfold PieceDisj OnMen M16; decide +kernel
+
+/-- 23 queens: boards consistent, more than 16 men — covered by `C17_bound_consistent`. -/
+def c17Queens : Position :=
+  { Position.dflt with c0 := 0xffffff#64, c1 := 0x1000000000000000#64, p4 := 0xffffef#64,
+                       p5 := 0x1000000000000010#64 }
+example : Consistent c17Queens = true ∧ ¬ M16 c17Queens ∧ eval c17Queens = 21792 ∧
+    phase c17Queens = -724 := by
+  unfold M16; decide +kernel
 
 end Rawr
 
@@ -139,3 +376,15 @@ end Rawr
 #print axioms Rawr.C17_independent_fields
 #print axioms Rawr.C17_mirror
 #print axioms Rawr.abs_mirrorSwap
+#print axioms Rawr.C17_mirror_abs
+#print axioms Rawr.C17_bounds_gen
+#print axioms Rawr.C17_bounds_all
+#print axioms Rawr.C17_bound
+#print axioms Rawr.C17_no_overflow
+#print axioms Rawr.C17_phase_no_overflow
+#print axioms Rawr.C17_bounds_all_V1
+#print axioms Rawr.C17_bound_V1
+#print axioms Rawr.C17_no_overflow_V1
+#print axioms Rawr.C17_bound_consistent
+#print axioms Rawr.C17_no_overflow_consistent
+#print axioms Rawr.C17_bound_InD
